@@ -167,3 +167,16 @@ Definition spec_find_proxy (e : env) (has_fn has_fnx : bool) (t : tree) (url hos
   if xorb has_fn has_fnx
   then Some (spec_check_result (eval_tree (spec_call e) url (effective_host hostname url_hostname) t))
   else None.
+
+(* ---- standard PAC rules for what the script declares: its own function replaces a predefined helper of that name,
+   the helpers are there while the script body is loaded, redeclaring a predefined JavaScript helper with const/let is
+   an error of the script ---- *)
+Definition spec_scoped_call (sc : scope) (e : env) (h : helper) (args : list jsval) : outcome :=
+  match lookup_helper h (sc_shadow sc) with Some v => Val v | None => spec_call e h args end.
+Definition spec_creation_fails (sc : scope) : bool :=
+  match sc_lexical sc with Some h => is_js_helper h | None => false end.
+Definition spec_find_proxy_scoped (sc : scope) (e : env) (has_fn has_fnx : bool) (t : tree) (url hostname url_hostname : str) : option fpresult :=
+  if spec_creation_fails sc then None
+  else if xorb has_fn has_fnx
+  then Some (spec_check_result (eval_tree (spec_scoped_call sc e) url (effective_host hostname url_hostname) t))
+  else None.
